@@ -288,10 +288,11 @@ def e2e_cases(pid, tier, rng):
                 cases.append((case, lay, B, cont))
     # boundary family: the first message(s) end exactly on a block end, a multi-block line starts the next block
     for B in ([64, 100, 128] if tier == "quick" else [64, 65, 100, 128, 200, 256, 1000, 4096, 8096, 9000]):
-        for first in ((1, 2) if B < 8096 else (2, 3)):
-            lay = textgen.boundary_layout(rng, B, first_lines=first, notation=textgen.NOTATIONS[(B + first) % len(textgen.NOTATIONS)])
+        for first, contb in [(f_, c_) for f_ in ((1, 2) if B < 8096 else (2, 3)) for c_ in (False, True)]:
+            lay = textgen.boundary_layout(rng, B, first_lines=first, notation=textgen.NOTATIONS[(B + first) % len(textgen.NOTATIONS)],
+                                          continuation=contb)
             for Bx in sorted({B, B + 1, max(64, B - 1), 2 * B, 65536}):
-                name = "b%d_%d.log" % (B, first)
+                name = "b%d_%d%s.log" % (B, first, "c" if contb else "")
                 case = Case({name: lay.data}, ["--color", "never", "--blocksz", str(Bx), name], lay.printed(),
                             note={"blocksz": Bx, "container": "plain", "file": name}, timeout=60)
                 cases.append((case, lay, Bx, "plain"))
